@@ -228,7 +228,7 @@ func (l filterList) String() string {
 
 type interFieldFilter rule.FilterSpec
 
-var comparisonRegexp = regexp.MustCompile(`(\w+)\s*(!?=)(\w+)`)
+var comparisonRegexp = regexp.MustCompile(`^\s*(\w+)\s*(!?=)(\w+)\s*$`)
 
 func (f *interFieldFilter) Set(value string) error {
 	values := comparisonRegexp.FindStringSubmatch(value)
@@ -247,7 +247,7 @@ func (f *interFieldFilter) Set(value string) error {
 
 type valueFilter rule.FilterSpec
 
-var filterRegexp = regexp.MustCompile(`(\w+)\s*(<=|>=|&=|=|!=|<|>|&)(\S+)`)
+var filterRegexp = regexp.MustCompile(`^\s*(\w+)\s*(<=|>=|&=|=|!=|<|>|&)(\S(?:.*\S)?)\s*$`)
 
 func (f *valueFilter) Set(value string) error {
 	values := filterRegexp.FindStringSubmatch(value)
